@@ -43,6 +43,9 @@ func gen(r *sim.Rng, tier string) *sim.Case {
 		p["emode"] = r.Pick(6, 1, 1)
 		p["read_jitter"] = r.Pick(4, 1) // the clock moves a little at every read
 		p["default_id"] = r.Pick(5, 1)
+		if r.Pct(15) {
+			p["twin"] = 1 // a second generator is used alternately
+		}
 		p["echunk"] = []int{0, 0, 1, 2}[r.N(4)]
 		if r.Pct(25) {
 			p["efail"] = 1 + r.N(4)
@@ -166,6 +169,16 @@ func idGen(c *sim.Case, r *sim.Rng, out *sim.WorkerOut, dg *engc.Digest) (*sim.V
 	start := stime.Base.Add(stime.Duration(startNs))
 	rb := p["randbit"]
 	g := randz.NewIdGenerator(start, rb)
+	// the twin: a second generator with another start time and another randBit, used alternately
+	// with the first.  Two generators share nothing (a package-level cache of the last timestamp
+	// or of unused random bits would couple them).
+	var g2 *randz.IdGenerator
+	start2Ns := startNs - 3*86400*1000*ms - 123456
+	rb2 := (p["randbit"]+5)%21 + 2
+	if p["twin"] == 1 {
+		gg := randz.NewIdGenerator(stime.Base.Add(stime.Duration(start2Ns)), rb2)
+		g2 = &gg
+	}
 	useDefault := p["default_id"] == 1
 	if useDefault {
 		// the package-level generator: documented as 18 random bits above which the
@@ -251,6 +264,20 @@ func idGen(c *sim.Case, r *sim.Rng, out *sim.WorkerOut, dg *engc.Digest) (*sim.V
 			prevValid = false
 			out.Probes["elapsed_outside_41_bits"]++
 		}
+		if g2 != nil {
+			t0 := (stime.Clock - start2Ns) / ms
+			id2 := int64(g2.Generate())
+			t1 := (stime.Clock - start2Ns) / ms
+			now = stime.Clock
+			if id2 < 0 {
+				return viol("shape:IdGenerator.Generate", "(*IdGenerator).Generate", "call %d, twin generator used alternately with the first: negative id %d", i, id2), true
+			}
+			if t0 >= 0 && t1 < 1<<41 {
+				if got := id2 >> uint(rb2); got < t0 || got > t1 {
+					return viol("shape:IdGenerator.Generate", "(*IdGenerator).Generate", "call %d, twin generator (randBit %d) used alternately with the first: id %d >> randBit = %d, elapsed milliseconds = %d..%d", i, rb2, id2, got, t0, t1), true
+				}
+			}
+		}
 	}
 	if scrand.Errors > 0 {
 		out.Faults["entropy_error"] += scrand.Errors
@@ -270,6 +297,9 @@ func idGen(c *sim.Case, r *sim.Rng, out *sim.WorkerOut, dg *engc.Digest) (*sim.V
 	}
 	if useDefault {
 		out.Probes["package_level_Id()"]++
+	}
+	if g2 != nil {
+		out.Probes["twin_instance_used_alternately"]++
 	}
 	boundary := false
 	for _, op := range c.Ops {
